@@ -163,5 +163,29 @@ Fix11 == [i \in DOMAIN F11 |->
             THEN [F11[i] EXCEPT !.defs = @ @@ ("M" :> SObj(Props1("r", SStr), {}))]
             ELSE F11[i]]
 
-QuickUniverse == F1 \o F2 \o F3 \o F4 \o F5 \o F6 \o F7 \o F8 \o F9 \o F10 \o Fix11
+(* N: one level of nesting - named-type-producing inline schemas (string enums, objects,
+   constrained strings, typed enums) at every container position, in pairs, so that derived
+   names of inline types meet by-name reuse *)
+InnerPool == << [id |-> "enumA", s |-> EnumS(<<JS(<<"r","e","d">>), JS(<<"g">>)>>)],
+                [id |-> "enumB", s |-> EnumS(<<JS(<<"s">>), JS(<<"l">>)>>)],
+                [id |-> "objA", s |-> SObj(Props1("p", SInt), {"p"})],
+                [id |-> "objB", s |-> SObj(Props1("q", SStr), {"q"})],
+                [id |-> "strC", s |-> [type |-> "string", minLength |-> 1, maxLength |-> 2]],
+                [id |-> "intE", s |-> [type |-> "integer", enum |-> <<JInt(1), JInt(2)>>]],
+                [id |-> "int", s |-> SInt] >>
+NPairs == { <<i, j>> \in (DOMAIN InnerPool) \X (DOMAIN InnerPool) : i # j /\ InnerPool[i].id # "int" /\ InnerPool[j].id # "int" }
+NP == SetToSeq(NPairs)
+X(i) == InnerPool[i].s
+NId(pre, pr) == pre \o "-" \o InnerPool[pr[1]].id \o "-" \o InnerPool[pr[2]].id
+N ==   [k \in DOMAIN NP |-> Doc("N", NId("tuple", NP[k]), STuple(<<X(NP[k][1]), X(NP[k][2])>>))]
+    \o [k \in DOMAIN NP |-> Doc("N", NId("props", NP[k]), SObj(Props2("a", X(NP[k][1]), "b", X(NP[k][2])), {"a"}))]
+    \o [k \in DOMAIN NP |-> Doc("N", NId("extvar", NP[k]), SOneOf(<< ExtVar("A", X(NP[k][1])), ExtVar("B", X(NP[k][2])) >>))]
+    \o [i \in DOMAIN InnerPool |-> Doc("N", "arr-" \o InnerPool[i].id, SArr(X(i)))]
+    \o [i \in DOMAIN InnerPool |-> Doc("N", "map-" \o InnerPool[i].id, SMap(X(i)))]
+    \o [i \in DOMAIN InnerPool |-> Doc("N", "opt-" \o InnerPool[i].id, SObj(Props1("o", SNullable(X(i))), {}))]
+    \o [i \in DOMAIN InnerPool |-> Doc("N", "deep-" \o InnerPool[i].id, SObj(Props1("a", SObj(Props1("b", X(i)), {"b"})), {"a"}))]
+    \o [i \in DOMAIN InnerPool |-> Doc("N", "tuple3-" \o InnerPool[i].id, STuple(<<X(i), SInt, X(i)>>))]
+    \o [i \in DOMAIN InnerPool |-> Doc("N", "arr-in-prop-" \o InnerPool[i].id, SObj(Props2("v", SArr(X(i)), "w", STuple(<<X(i), SStr>>)), {}))]
+
+QuickUniverse == F1 \o F2 \o F3 \o F4 \o F5 \o F6 \o F7 \o F8 \o F9 \o F10 \o Fix11 \o N
 =============================================================================
